@@ -1,0 +1,67 @@
+//go:build verif
+// +build verif
+
+/*
+ * Copyright 2022 CloudWeGo Authors
+ *
+ * Licensed under the Apache License, Version 2.0 (the "License");
+ * you may not use this file except in compliance with the License.
+ * You may obtain a copy of the License at
+ *
+ *     http://www.apache.org/licenses/LICENSE-2.0
+ *
+ * Unless required by applicable law or agreed to in writing, software
+ * distributed under the License is distributed on an "AS IS" BASIS,
+ * WITHOUT WARRANTIES OR CONDITIONS OF ANY KIND, either express or implied.
+ * See the License for the specific language governing permissions and
+ * limitations under the License.
+ */
+
+package http1
+
+import (
+	"unsafe"
+
+	"github.com/cloudwego/hertz/pkg/network"
+)
+
+// VerifHook, when set, is called at every verifPoint (verification hook H2, property C10).
+//
+// hc is the client (nil for the wantConn-only sites tryd and cancel); site names the lock region.  For sites inside a connsLock region count/idle/waiters are
+// connsCount, len(conns), connsWait.len() read under that lock; for the sites that only hold
+// wantConn.mu (tryd, cancel), no lock (wake, close) or are pure yield points ("y.*") they are -1.
+// w identifies the wantConn (nil if none), conn is the network.Conn of the clientConn involved
+// (nil if none), n and flag are site specific (see hooks/client.patch).
+var VerifHook func(hc *HostClient, site string, count, idle, waiters int, w unsafe.Pointer, conn network.Conn, n int, flag bool)
+
+func verifLocked(site string) bool {
+	switch site {
+	case "acq", "enq", "rel", "dec", "reap", "reapchk":
+		return true
+	}
+	return false
+}
+
+func verifPoint(site string, c *HostClient, w *wantConn, cc *clientConn, n int, flag bool) {
+	h := VerifHook
+	if h == nil {
+		return
+	}
+	count, idle, waiters := -1, -1, -1
+	if c != nil && verifLocked(site) {
+		count, idle, waiters = c.connsCount, len(c.conns), c.verifWaitLen()
+	}
+	var conn network.Conn
+	if cc != nil {
+		conn = cc.c
+	}
+	h(c, site, count, idle, waiters, unsafe.Pointer(w), conn, n, flag)
+}
+
+// verifWaitLen is connsWait.len() tolerating the nil queue; caller holds connsLock.
+func (c *HostClient) verifWaitLen() int {
+	if c.connsWait == nil {
+		return 0
+	}
+	return c.connsWait.len()
+}
